@@ -12,6 +12,9 @@ package mon
 import (
 	"fmt"
 	"net/http"
+	"os"
+	"path/filepath"
+	"reservoir/config"
 	"strings"
 	"sync"
 	"time"
@@ -369,6 +372,20 @@ func c04RunE2E(b core.Batch, r *core.Recorder) {
 		proxies[p] = rig.StartProxy(rig.ProxyOpts{Backend: backend, IgnoreCC: p.ignore, ForceDefault: p.force})
 		defer proxies[p].Close()
 	}
+	// a fifth proxy is built from a default configuration whose policy settings nobody touched before NewProxy (as in
+	// production); its policy is switched through the API entry point right before a case ("at any point of a history")
+	var live *rig.ProxyRig
+	{
+		wd, _ := os.Getwd()
+		os.MkdirAll("var", 0o755)
+		cfg := config.NewDefault()
+		cfg.Cache.File.Dir.Overwrite(filepath.Join(wd, "c04livecache"))
+		cfg.Cache.Type.Overwrite(config.CacheType(backend))
+		if lp, err := rig.StartProxyWith(cfg); err == nil {
+			live = lp
+			defer live.Close()
+		}
+	}
 	n := b.Int("n", 300)
 	methods := []string{"GET", "GET", "GET", "GET", "HEAD", "POST", "PUT", "PATCH", "DELETE", "OPTIONS"}
 	statuses := []int{200, 200, 200, 200, 200, 200, 201, 203, 204, 206, 301, 302, 304, 307, 400, 404, 410, 416, 500, 503}
@@ -389,6 +406,13 @@ func c04RunE2E(b core.Batch, r *core.Recorder) {
 		w.cases[c.ID] = c
 		w.mu.Unlock()
 		p := proxies[po]
+		if live != nil && i%4 == 3 {
+			st, err := config.UpdatePartialFromConfig(live.Cfg, map[string]any{"proxy": map[string]any{"cache_policy": map[string]any{"ignore_cache_control": po.ignore, "force_default_max_age": po.force}}})
+			if err == nil && st != config.UpdateStatusFailed {
+				p = live
+				r.Count("e2e_cases_after_a_run_time_policy_change", 1)
+			}
+		}
 		q := rig.Req{Method: c.Method, Target: "/" + c.ID}
 		if c.Method == "POST" || c.Method == "PUT" || c.Method == "PATCH" {
 			q.Body = []byte("x=1")
@@ -544,12 +568,12 @@ func init() {
 		ID:    "C04",
 		Level: "exploration",
 		Rule: "header sets = directive class (21 classes: none, no-store, no-cache, private, max-age=0/60/86400, public, unknown, s-maxage, invalid and duplicate max-age forms, combinations) x decoration (plain, upper/mixed case, 2nd/3rd Cache-Control line, after unknown directives, spacing, repetition, reversed order) x Expires class (absent, future/past IMF, past RFC 850, past asctime, '0', '-1', garbage, empty); " +
-			"function level: ShouldCache(ignore) vs the reference predicate for every generated set; end to end: method from 7, status from 15, one of the 4 cache_policy combinations, two sequential requests per case through the real proxy (both transports/backends); the origin log classifies the second request as no-contact / conditional-contact / plain-contact. Non-trivial = distinct (method, status, header set, policy, transport, backend).",
+			"function level: ShouldCache(ignore) vs the reference predicate for every generated set; end to end: method from 7, status from 15, one of the 4 cache_policy combinations (fixed at start, or - every 4th case - switched through the API entry point on a proxy built from an untouched default configuration), two sequential requests per case through the real proxy (both transports/backends); the origin log classifies the second request as no-contact / conditional-contact / plain-contact. Non-trivial = distinct (method, status, header set, policy, transport, backend).",
 		Assumptions: []string{"public, s-maxage, qualified no-cache/private, invalid or duplicate max-age without a prohibiting directive are unconstrained (not judged)", "positive max-age together with a past Expires is unconstrained",
 			"an entry stored under the ignore policy whose own lifetime is already over may be revalidated at once (conditional contact counts as 'was stored')"},
 		Plan:     c04Plan,
 		Run:      c04Run,
 		Parallel: 5,
-		Floors:   map[string]map[string]int64{"quick": {"e2e_must": 150, "e2e_must-not": 400}, "thorough": {"e2e_must": 3000, "e2e_must-not": 8000}},
+		Floors:   map[string]map[string]int64{"quick": {"e2e_must": 150, "e2e_must-not": 400, "e2e_cases_after_a_run_time_policy_change": 200}, "thorough": {"e2e_must": 3000, "e2e_must-not": 8000, "e2e_cases_after_a_run_time_policy_change": 4000}},
 	})
 }
